@@ -4,7 +4,8 @@
    error_map, _raise_for_status, _DetectTruncation, get_chunk + bucket check, RDB fetch), Model/Jwt.v. *)
 From Coq Require Import ZArith List Bool String.
 From KV Require Import Base.Sx Base.Str Gen.Generated Model.S3Retry Model.S3Session Model.Jwt Model.JwtHist Model.S3Url
-  Model.S3Budget Proofs.S3RetryP Proofs.S3SessionP Proofs.JwtP Proofs.JwtHistP Proofs.S3UrlP Proofs.S3BudgetP.
+  Model.S3Budget Model.S3Unstreamed Proofs.S3RetryP Proofs.S3SessionP Proofs.JwtP Proofs.JwtHistP Proofs.S3UrlP
+  Proofs.S3BudgetP Proofs.S3UnstreamedP.
 Import ListNotations.
 Open Scope Z_scope.
 
@@ -607,3 +608,110 @@ Print Assumptions C09_per_call_override_drops_store_defaults.
 Theorem C09_per_call_retry_object_kept : forall store r fl, request_retries store (Some (RObj r fl)) = mkConfig r fl.
 Proof. exact override_retry_object_kept. Qed.
 Print Assumptions C09_per_call_retry_object_kept.
+
+(* =====================================================================================
+   REQUESTS THAT ARE NOT STREAMED, AT FULL STRENGTH (Model/S3Unstreamed.v): the bucket listing of the 404 rule and any
+   other answer WITH a body to a request without stream=True.  `spec_unstreamed` counts: faults before the header and
+   forcelist statuses against what is left of the budget SINCE the last answer that lost part of its body; such an answer
+   costs one read retry (and one of the total) and starts a new count.  C09_unstreamed_request_partial above is the
+   special case without such an answer; the unguarded counting spec stays refuted (C09_listing_budget_not_carried).
+   ===================================================================================== *)
+
+(* ---- MAIN: for every configuration, every length and EVERY fault sequence the loop of a request that is not streamed
+   returns exactly the result and sends exactly the requests of the counting automaton (no guard) ---- *)
+Theorem C09_unstreamed_request : forall cfg len fs,
+  wf_retry (c_retry cfg) = true -> Forall (fun o => wf_outcome o = true) fs ->
+  request cfg PListing len [] fs = spec_unstreamed cfg len fs.
+Proof. exact unstreamed_is_spec. Qed.
+Print Assumptions C09_unstreamed_request.
+
+(* ---- never partial data, for requests that are not streamed too: Ok carries the declared length ---- *)
+Theorem C09_unstreamed_never_partial : forall cfg len fs d n,
+  wf_retry (c_retry cfg) = true -> Forall (fun o => wf_outcome o = true) fs ->
+  request cfg PListing len [] fs = (Ok d, n) -> d = len.
+Proof. exact unstreamed_never_partial. Qed.
+Print Assumptions C09_unstreamed_never_partial.
+
+(* ---- when no answer loses part of its body the automaton IS the counting spec of the property ---- *)
+Theorem C09_unstreamed_without_lost_body : forall cfg len fs,
+  wf_retry (c_retry cfg) = true -> forallb (fun o => negb (body_lost len o)) fs = true ->
+  spec_unstreamed cfg len fs = spec_request cfg len fs.
+Proof. exact unstreamed_without_lost_body. Qed.
+Print Assumptions C09_unstreamed_without_lost_body.
+
+(* ---- what the quirk can NOT do: the answers that lost part of their body and were retried never outnumber the read
+   budget, whatever the adapter retried in between (n - 1 = the answers that were retried) ---- *)
+Theorem C09_unstreamed_lost_bodies_bounded : forall cfg len fs r n rd,
+  wf_retry (c_retry cfg) = true -> Forall (fun o => wf_outcome o = true) fs ->
+  request cfg PListing len [] fs = (r, n) -> r_read (c_retry cfg) = Some rd ->
+  bodies_lost len (pred n) fs <= rd.
+Proof. exact unstreamed_lost_bodies_bounded. Qed.
+Print Assumptions C09_unstreamed_lost_bodies_bounded.
+
+(* ---- the EVIDENCE of the 404 rule over histories (`shown` of C09_session is built from listing_shows_keys) said by
+   counting alone: the bucket holds a key and the listing request comes back by the automaton ---- *)
+Theorem C09_evidence_by_counting : forall cfg o,
+  wf_retry (c_retry cfg) = true -> Forall (fun x => wf_outcome x = true) (o_fsb o) ->
+  listing_shows_keys cfg o =
+  match o_state o, fst (spec_unstreamed cfg (o_blen o) (listing_script (o_state o) (o_fsb o))) with
+  | BFull, Ok _ => true
+  | _, _ => false
+  end.
+Proof. exact evidence_by_counting. Qed.
+Print Assumptions C09_evidence_by_counting.
+
+(* satisfiable, and the quirk in numbers: read budget 1 - reset before the header then a cut body is still answered
+   (the counting spec says glitch after 2); two cut bodies are not; a cut body uses the budget up for good: a reset
+   before the header AFTER it is a glitch; status budget 1: 503, cut body, 503 is answered; the exact fit *)
+Example C09_unstreamed_examples :
+  let cfg := mkConfig (mkRetry (Some 10) (Some 1) (Some 1) (Some 1)) [500; 502; 503; 504] in
+  spec_unstreamed cfg 100 [HFault HReset; Trunc 5] = (Ok 100%nat, 3%nat) /\
+  spec_request cfg 100 [HFault HReset; Trunc 5] = (Err Glitch, 2%nat) /\
+  spec_unstreamed cfg 100 [Trunc 5; Trunc 5] = (Err Glitch, 2%nat) /\
+  spec_unstreamed cfg 100 [Trunc 5; HFault HReset] = (Err Glitch, 2%nat) /\
+  spec_unstreamed cfg 100 [Status 503; Trunc 5; Status 503] = (Ok 100%nat, 4%nat) /\
+  spec_unstreamed cfg 100 [Status 503; Status 503] = (Err Glitch, 2%nat) /\
+  spec_unstreamed cfg 100 [Trunc 100; Status 403] = (Ok 100%nat, 1%nat) /\
+  spec_unstreamed cfg 100 [Status 503; Status 404] = (Err NotFound, 2%nat) /\
+  bodies_lost 100 3 [Status 503; Trunc 5; Status 503] = 1.
+Proof. vm_compute. repeat split; reflexivity. Qed.
+Print Assumptions C09_unstreamed_examples.
+
+(* =====================================================================================
+   SEVERAL STORE OBJECTS IN ONE HISTORY: the evidence of the 404 rule is per bucket AND per store object
+   ===================================================================================== *)
+
+(* ---- MAIN: any interleaved history of get_chunk calls over any number of store objects (each constructed with a
+   configuration of its own): the calls on object k return the single-store spec on the sub-history of k, and the
+   verified set of k is the evidence of that sub-history - a listing seen through another object neither counts nor
+   is lost ---- *)
+Theorem C09_stores : forall cf k ops,
+  wf_retry (c_retry (cf k)) = true -> Forall (fun o => wf_op (s_op o)) ops ->
+  map g_result (runs_of k ops (fst (stores cf fresh ops))) = spec_session (cf k) [] (on_store k ops) /\
+  (forall id, memN id (snd (stores cf fresh ops) k) = shown (cf k) (on_store k ops) id).
+Proof. exact stores_is_spec. Qed.
+Print Assumptions C09_stores.
+
+(* ---- no hypotheses: from ANY state of the caches, what object k returns and keeps is what it would return and keep
+   if the calls on the other objects had never been made ---- *)
+Theorem C09_store_objects_independent : forall cf k ops st,
+  runs_of k ops (fst (stores cf st ops)) = fst (session (cf k) (st k) (on_store k ops)) /\
+  snd (stores cf st ops) k = snd (session (cf k) (st k) (on_store k ops)).
+Proof. exact stores_projection. Qed.
+Print Assumptions C09_store_objects_independent.
+
+Theorem C09_other_stores_untouched : forall cf st o j, j <> s_store o -> snd (stores cf st [o]) j = st j.
+Proof. exact stores_other_untouched. Qed.
+Print Assumptions C09_other_stores_untouched.
+
+(* object 0 sees a 404 in bucket 0 while it holds a key (missing chunk, bucket verified); the bucket is emptied; object 1
+   gets a 404 in it: StoreUnavailable, not a missing chunk; object 0 again: still a missing chunk (its evidence does
+   not expire); a second BUCKET on object 0 is not vouched for *)
+Example C09_stores_examples :
+  let cfg := mkConfig (mkRetry (Some 10) (Some 1) (Some 1) (Some 1)) [500; 502; 503; 504] in
+  let call k id st := mkSop k (mkOp id st [8; 2; 10; 20]%nat 60 [Status 404] []) in
+  map g_result (fst (stores (fun _ => cfg) fresh [call 0 0 BFull; call 1 0 BEmpty; call 0 0 BEmpty; call 0 1 BEmpty]%nat))
+  = [Err NotFound; Err Unavail; Err NotFound; Err Unavail] /\
+  snd (stores (fun _ => cfg) fresh [call 0 0 BFull; call 1 0 BEmpty]%nat) 1%nat = [].
+Proof. vm_compute. split; reflexivity. Qed.
+Print Assumptions C09_stores_examples.
